@@ -154,42 +154,9 @@ CHECKS = {
         note="Four defects found by this check were repaired (F11, F12, F13, F14). Generated GHW files with several sub-ranges per parent are loaded by the real reader and compared with the byte-level Lean model and the denotation (also under C11 / C06). "
              "The composition slice ∘ load is differential, the per-value theorems are unbounded.",
     ),
-    "C11": dict(
-        technique="Lean 4 proof (per-bit vector assembly, std_ulogic table, two's complement, enum widths, element labels) + three-way differential: generated GHW files through the real loader, a BYTE-LEVEL Lean model of wellen/src/ghw and the denotation of the abstract design",
-        text="Lean theorems C11_set_get (for every vector buffer, bit position and symbol: writing one bit record changes exactly that symbol of the assembled value, in the addressing the renderer and slice_signal use; "
-             "byte lemmas by kernel evaluation over all bytes x positions x symbols), C11_lut (STD_LOGIC_LUT = position in the rendering alphabet of GHDL's literal order), C11_int32 (the 8 bytes handed to the encoder end in the "
-             "32-bit two's complement), C11_enum_bits (minimal width), C11_labels / C11_labels_model_eq_spec (elements are labelled left + k / left - k in declaration order), C11_delta_cycle / C11_new_time (a step at the current time keeps the time table: its entries carry the same index; a later time appends one entry). The composition file -> waveform is differential: "
-             "gen/ghw_writer.py serialises random designs (see evidence rule) and the real loader, the byte-level Lean model (header, directory probe, string / type / WKT / hierarchy sections, type classification, add_var, signal "
-             "tracker incl. aliases, VecBuffer, snapshot / cycle sections, store, slices, pointer-level builder) and the design's denotation (atoms -> values, no tables, no packing) must agree on the full dump. "
-             "Malformed files and all corpus GHW files: implementation vs model (err / panic / dump).",
-        design_ref="DESIGN.md section 5 / C11",
-        note="The byte-level parser model is validated by correspondence only (no theorem connects it to the design's denotation); the proved facts are the pure components. Release build: debug assertions are not modelled. "
-             "Supported subset = what gen/ghw_writer.py emits (no i64 / physical types, no multi-dimensional or unconstrained arrays, dense signal ids). Fixes F23 (downto element labels) and F26 (element subtype names) are prerequisites. "
-             "Trusted: leb128, f64::from_le_bytes.",
-    ),
-    "C12": dict(
-        technique="Lean 4 proof (value-at-every-time is invariant under repetition removal; time tables commute with the timescale factor) + cross-format differential: one abstract design written as GHW, VCD and FST, all loaded by the real code and compared with the observation of the design's denotation; corpus VCD/FST pairs",
-        text="Lean theorems C12_value_at_canon (for every change list with non-decreasing indices and every time index: the value shown is unchanged by the removal of immediate repetitions — formats differ in exactly this redundancy) and "
-             "C12_timescale (strictPrefixMax commutes with multiplying all timestamps by the timescale factor: same table, same indices, for every factor and every timestamp sequence). The cross-format comparison is differential: "
-             "random designs are serialised by three independent writers (GHW: per-bit records, fs; VCD: text, 1 fs / 1 ps, shared id codes; FST: blocks with frame / records, exponent -15 / -12, alias handles); the real loader's observation of each file (tree: names, nesting, order, widths; per variable the "
-             "value at every time in fs) must equal the observation computed by the Lean specification from the design. All corpus VCD/FST pairs go through the same observation.",
-        design_ref="DESIGN.md section 5 / C12",
-        note="There is no Lean model composing the three loaders; each loader is tied to its format by C01/C09 (VCD), C10 (FST) and C11 (GHW). The FST side uses gen/fst_writer.py (written from fst-reader's block layout: plain value-change blocks, gzip hierarchy, raw / zlib streams; no LZ4 / FastLZ blocks, no dynamic-alias block kinds, no strings) "
-             "plus the corpus VCD/FST pairs produced by vcd2fst. Arrays of scalars / vectors are not expressible in VCD with the same tree and are left out of the generated pairs; the one corpus GHW/FST pair comes from two tools "
-             "with different trees (packages, enums as strings) and is left to the repo's own test.",
-    ),
-    "C13": dict(
-        technique="Lean 4 proof (slice/compress = packing of the symbols fetched at the requested bit positions, by induction; entry round trip) + exhaustive sub-range differential in release and debug-assertion builds",
-        text="Lean theorems C13_slice_symbols (for every kind, parent width and [msb:lsb]: the produced bytes render as the parent's symbols at those bit positions), C13_minimal_repack, C13_entry; C13_alias_exact / C13_alias_range (the GHW loader's find_or_add_alias / register_bit_vec give a sub-range either a fresh signal reference or the reference of an alias with exactly the same bit offsets of the same vector). "
-             "The real slice_signal (hook) is run on parents recorded through the real store for widths 2..40 x ALL sub-ranges x state mixes (plus random wider parents), in the release profile and in a "
-             "profile with debug assertions and overflow checks, and compared with the Lean model and with the substring-of-the-parent specification (canon, minimal kind).",
-        design_ref="DESIGN.md section 5 / C13",
-        note="Four defects found by this check were repaired (F11, F12, F13, F14). Generated GHW files with several sub-ranges per parent are loaded by the real reader and compared with the byte-level Lean model and the denotation (also under C11 / C06). "
-             "The composition slice ∘ load is differential, the per-value theorems are unbounded.",
-    ),
     "C10": dict(
-        technique="Lean 4 proof (expand_entries = rewrite under the wider kind, writer entry = loader entry layout; case analysis over all kind triples and width residues) + exhaustive state-order differential + whole FST files written from abstract designs + corpus VCD/FST pairs",
-        text="Lean theorems C10_expand_is_rewrite (an entry written under a narrower maximum, once widened, is byte for byte the entry written under the wider kind: order independence of 2/4/9-state values), "
+        technique="Lean 4 proof (refinement: SignalWriter = canon of the callback sequence, by induction over all callback sequences; expand_entries = rewrite under the wider kind, writer entry = loader entry layout; case analysis over all kind triples and width residues) + exhaustive state-order differential + whole FST files written from abstract designs + corpus VCD/FST pairs",
+        text="Lean theorem C10_writer_refines_canon (Proofs/FstRefine.lean): for EVERY sequence of callbacks (time index, value characters) of a bit-vector signal of width >= 2 - every order of 2-, 4- and 9-state values, any repetitions - the model of SignalWriter::add_change (widening through expand_entries, entry layout, byte-wise de-duplication) ends with exactly the changes the specification's canon keeps, each stored as the loader's entry of its symbols under the widest kind that occurred; C10_expand_for_every_value (expand_entries is the identity on meaning for every value), C10_cursor_first (the time-index cursor of load_signals). Further: C10_expand_is_rewrite (an entry written under a narrower maximum, once widened, is byte for byte the entry written under the wider kind: order independence of 2/4/9-state values), "
              "C10_writer_uses_entry_layout, C10_writer_entry (entry round trip), C10_timescale (for every exponent -15..0 the reported factor x unit is the file's tick). The real SignalWriter (hook) is driven with every sequence of value kinds of length <= 4 at widths 1..24 and random histories "
              "(release and debug-assertion builds) against the Lean model and canon of the callback history; every corpus x.vcd / x.vcd.fst pair is loaded through both paths and compared variable by variable.",
         design_ref="DESIGN.md section 5 / C10",
